@@ -11,7 +11,7 @@
 (*   reset    a new (pre-state, operation) group; dig/sum of the pre-state                        *)
 (*   restore  the harness put a pristine copy of the pre-state file in place                      *)
 (*   opstart  mode ref | plain | fault | retry                                                    *)
-(*   wbegin wstmt wcommit wrollback winterrupt      writer's connection (hooks)                  *)
+(*   wbegin wstmt wcommit wrollback wend winterrupt writer's connection (hooks, autocommit flag)  *)
 (*   rbegin rread rend                              reader's connection                          *)
 (*   crash    a copy of the database files taken at this moment, reopened: dig                    *)
 (*   opend    res, auto (autocommit flag), dig/sum (second connection), wdig (writer's connection) *)
@@ -53,9 +53,11 @@ Same == UNCHANGED << pc, base >>
 TOpStart   == IsEvent("opstart") /\ T!OpStart(Rec[l].mode) /\ Same
 TWBegin    == IsEvent("wbegin") /\ T!WBegin /\ Same
 \* statements outside a transaction are reads, or a write whose own commit is the next event
-TWStmt     == IsEvent("wstmt") /\ (IF w.txn THEN T!WStmt(Rec[l].w) ELSE op.st = "run" /\ UNCHANGED T!dbvars) /\ Same
+TWStmt     == IsEvent("wstmt") /\ (IF w.txn THEN T!WStmt(Rec[l].w) ELSE op.st = "run" /\ UNCHANGED << db, w, r, op, exp >>) /\ Same
 TWInterrupt == IsEvent("winterrupt") /\ T!WInterrupt /\ Same
 TWRollback == IsEvent("wrollback") /\ T!WRollback /\ Same
+\* the autocommit flag is back although neither hook fired: a transaction that wrote nothing was closed
+TWEnd      == IsEvent("wend") /\ T!WEnd /\ Same
 \* the commit hook fires before the commit; a refused commit is followed at once by the rollback
 TWCommit ==
     /\ IsEvent("wcommit")
@@ -92,7 +94,7 @@ TOpEnd ==
        IN  T!OpEnd(Rec[l].res, post, wpost, Rec[l].auto)
     /\ Same
 
-TraceNext == \/ TReset \/ TRestore \/ TOpStart \/ TWBegin \/ TWStmt \/ TWInterrupt \/ TWRollback \/ TWCommit
+TraceNext == \/ TReset \/ TRestore \/ TOpStart \/ TWBegin \/ TWStmt \/ TWInterrupt \/ TWRollback \/ TWEnd \/ TWCommit
              \/ TRBegin \/ TRRead \/ TREnd \/ TCrash \/ TOpEnd
 
 TraceSpec == TraceInit /\ [][TraceNext]_tvars
